@@ -85,6 +85,15 @@ def gen_case(rng, idx, tier):
         elif co < 0.2 and op != "matmul" and (op != "div" or dimA == 0) and (op != "mul" or dimA == 0):
             B = {"U": list(A["U"]), "P": [F(abs(x) + 1) for x in A["P"]] if op == "div" and dimA == 0 else list(A["P"]), "W": None if A["W"] is None else list(A["W"])}
             relation = "samedata"
+        if rng.random() < 0.1:
+            # control values of very different magnitude in the two operands (exact class only): nothing in the
+            # statement depends on the size of the numbers
+            sc = rng.choice([F(1, 10**10), F(1, 10**6), F(10**6)])
+            B = dict(B, P=[[c * sc for c in pt] if isinstance(pt, list) else pt * sc for pt in B["P"]])
+            if rng.random() < 0.5 and B["W"] is not None:
+                B = dict(B, W=[w * F(1, 10**5) for w in B["W"]])
+            nt = "frac"
+            relation = relation + "+scaled"
         if op == "mul" and rng.random() < 0.5:
             A, B = B, A
         if rng.random() < 0.06:
